@@ -13,8 +13,15 @@ trap cleanup EXIT
 git -C /repo worktree add -q --detach "$W/repo" HEAD || exit 2
 if ! git -C "$W/repo" apply "$PATCH"; then echo "$(basename "$PATCH") APPLY-FAILED"; exit 2; fi
 mkdir -p "$W/verif"
-rsync -a --exclude target "$VERIF/harness" "$W/verif/"
-cp "$VERIF/known_findings.json" "$W/verif/" 2>/dev/null
+# VMUT_REV (or the file /tmp/vmut.rev) pins the harness to a committed revision of /verif, so that a
+# long matrix run is not disturbed by work in progress; default: the working tree.
+REV="${VMUT_REV:-$(cat /tmp/vmut.rev 2>/dev/null)}"
+if [ -n "$REV" ]; then
+  git -C "$VERIF" archive "$REV" harness known_findings.json | tar -x -C "$W/verif"
+else
+  rsync -a --exclude target "$VERIF/harness" "$W/verif/"
+  cp "$VERIF/known_findings.json" "$W/verif/" 2>/dev/null
+fi
 sed -i "s#path = \"/repo\"#path = \"$W/repo\"#" "$W/verif/harness/Cargo.toml"
 export CARGO_NET_OFFLINE=true
 # share the dependency build cache across scratch runs to save time/disk
